@@ -289,6 +289,9 @@ type SymSpec struct {
 	// NonNil: pointers with these keys are never nil (documented
 	// preconditions of the entry point).
 	NonNil func(key string) bool
+	// OpaqueLen: the length of an opaque slice is an uninterpreted integer
+	// (arithmetic on it stays symbolic) instead of a symbol with a domain.
+	OpaqueLen bool
 }
 
 // symOf creates the symbolic value of type t named key. Pointers decide
